@@ -239,6 +239,11 @@ func nextEvent() int {
 	if schedPos < len(schedule) {
 		t := schedule[schedPos]
 		schedPos++
+		if os.Getenv("VERIF_SCHED_DEBUG") != "" {
+			_, file, line, _ := runtime.Caller(2)
+			_, file3, line3, _ := runtime.Caller(3)
+			fmt.Fprintf(os.Stderr, "event %d: thread %d -> %d at %s:%d <- %s:%d\n", schedPos-1, curThr.id, t, file, line, file3, line3)
+		}
 		return t
 	}
 	return -1
